@@ -2,6 +2,7 @@ package main
 
 import (
 	"fmt"
+	"os"
 	"go/constant"
 	"go/token"
 	"go/types"
@@ -183,12 +184,14 @@ func (x *Exec) closure(key string, arr Term, top Term) {
 	}
 	switch under(t).(type) {
 	case *types.Pointer, *types.Map, *types.Chan:
-		x.sc.assert(fmt.Sprintf("(forall ((r Int)) (! (<= (select %s r) %s) :pattern ((select %s r))))", arr, top, arr))
+		// only ALLOCATED objects (r <= top) are constrained: the content of unallocated references is
+		// arbitrary (a callee may return a fresh object whose fields point to other fresh objects)
+		x.sc.assert(fmt.Sprintf("(forall ((r Int)) (! (=> (<= r %s) (<= (select %s r) %s)) :pattern ((select %s r))))", top, arr, top, arr))
 	case *types.Slice:
-		x.sc.assert(fmt.Sprintf("(forall ((r Int)) (! (<= (s_reg (select %s r)) %s) :pattern ((select %s r))))", arr, top, arr))
+		x.sc.assert(fmt.Sprintf("(forall ((r Int)) (! (=> (<= r %s) (<= (s_reg (select %s r)) %s)) :pattern ((select %s r))))", top, arr, top, arr))
 	case *types.Interface:
 		if !isErrorType(t) {
-			x.sc.assert(fmt.Sprintf("(forall ((r Int)) (! (<= (i_val (select %s r)) %s) :pattern ((select %s r))))", arr, top, arr))
+			x.sc.assert(fmt.Sprintf("(forall ((r Int)) (! (=> (<= r %s) (<= (i_val (select %s r)) %s)) :pattern ((select %s r))))", top, arr, top, arr))
 		}
 	}
 }
@@ -751,6 +754,9 @@ func (x *Exec) runBlock(fr *Frame, b *ssa.BasicBlock, back map[[2]int]bool) {
 				x.returnAnchors(fr, b, t, vs, st, reach)
 			}
 			if fr.isTop && x.fc != nil && x.entryEnv != nil {
+				if os.Getenv("GOVC_COVER") != "" {
+					x.cover(fmt.Sprintf("return%d", returnOrdinal(fr.fn, t)), reach, t.Pos(), "return reachable")
+				}
 				x.postsAtReturn(fr, t, vs, st, reach)
 			}
 			fr.rets = append(fr.rets, retRec{cond: reach, st: st, vals: vs, pos: t.Pos()})
